@@ -687,276 +687,3 @@ Example vec_mutation_example :
              0 st 0 0 = [VNum 1; VNum 2].
 Proof. vm_compute. reflexivity. Qed.
 
-(* ------------------------------------------------------------------ *)
-(* the mini-language (IterLang): chains, and the stack of hidden locals *)
-(* ------------------------------------------------------------------ *)
-From YV Require Import IterLang.
-
-Definition ext (st : store) (extra : list iobj) : store := mkStore (heap st ++ extra) (vecs st).
-
-(* chains over a fresh iterable of a finite kind (no shared iterator, no endless source) *)
-Fixpoint fresh (e : iexp) : bool :=
-  match e with
-  | EMap _ e1 | EFilter _ e1 => fresh e1
-  | ESlot _ | EForever _ => false
-  | EStr s => valid_utf8 s
-  | _ => true
-  end.
-
-(* what the base of the chain denotes when the iterator is created *)
-Definition base_elems (e : iexp) (m : mstate) : list value :=
-  match fst (chain_of e) with
-  | EVec xs => until_stop xs
-  | ETup xs => until_stop xs
-  | ERange a z => elements (SrcRange a z)
-  | EStr s => elements (SrcStr s)
-  | EScript xs => elements (SrcScript xs)
-  | ECount lo hi => elements (SrcCount lo hi)
-  | EVecVar n => until_stop (get_vec (ms m) (nth n (wvars m) 0))
-  | _ => []
-  end.
-
-Lemma nth_error_app_here : forall {A} (l r : list A) x, nth_error (l ++ x :: r) (length l) = Some x.
-Proof. intros A l r x. rewrite nth_error_app2 by lia. rewrite Nat.sub_diag. reflexivity. Qed.
-
-Lemma eval_iter_rep : forall e m id m', fresh e = true -> eval_iter e m = (id, m') ->
-  forall extra, exists F, Rep F (ext (ms m') extra) id (chain_spec (snd (chain_of e)) (base_elems e m)).
-Proof.
-  induction e as [xs|xs|a z|s|xs|lo hi|lo|n|n|f e IH|p e IH]; intros m id m' Fr H extra;
-    cbn [fresh] in Fr; try discriminate Fr.
-  - cbn in H. inversion H; subst. exists 1. cbn [chain_of snd chain_spec fold_left base_elems fst].
-    destruct (fresh_iter_rep (ext (mkStore (heap (ms m) ++ [OVecIter (length (vecs (ms m))) 0]) (vecs (ms m) ++ [xs])) extra) (length (heap (ms m))))
-      as [A _].
-    specialize (A (length (vecs (ms m)))). unfold ext in A. cbn [heap vecs] in A.
-    rewrite <- app_assoc in A. cbn [app] in A. specialize (A (nth_error_app_here _ _ _)).
-    unfold get_vec in A. cbn [vecs] in A. rewrite app_nth2 in A by lia. rewrite Nat.sub_diag in A. cbn [nth] in A.
-    unfold ext. cbn [heap vecs ms m_store]. rewrite <- app_assoc. exact A.
-  - cbn in H. inversion H; subst. exists 1. cbn [chain_of snd chain_spec fold_left base_elems fst].
-    destruct (fresh_iter_rep (ext (mkStore (heap (ms m) ++ [OTupIter xs 0]) (vecs (ms m))) extra) (length (heap (ms m))))
-      as [_ [A _]].
-    apply A. unfold ext. cbn [heap]. rewrite <- app_assoc. apply nth_error_app_here.
-  - cbn [eval_iter] in H. destruct (range_new a z) as [c stp] eqn:RN. cbn in H. inversion H; subst.
-    exists 1. cbn [chain_of snd chain_spec fold_left base_elems fst].
-    destruct (fresh_iter_rep (ext (mkStore (heap (ms m) ++ [ORangeIter z c stp]) (vecs (ms m))) extra) (length (heap (ms m))))
-      as [_ [_ [_ [A _]]]].
-    apply (A a z). rewrite RN. cbn [fst snd]. unfold ext. cbn [heap]. rewrite <- app_assoc. apply nth_error_app_here.
-  - cbn in H. inversion H; subst. exists 1. cbn [chain_of snd chain_spec fold_left base_elems fst].
-    destruct (fresh_iter_rep (ext (mkStore (heap (ms m) ++ [OStrIter s 0]) (vecs (ms m))) extra) (length (heap (ms m))))
-      as [_ [_ [_ [_ [A _]]]]].
-    apply A; [exact Fr|]. unfold ext. cbn [heap]. rewrite <- app_assoc. apply nth_error_app_here.
-  - cbn in H. inversion H; subst. exists 1. cbn [chain_of snd chain_spec fold_left base_elems fst].
-    destruct (fresh_iter_rep (ext (mkStore (heap (ms m) ++ [OScript xs 0]) (vecs (ms m))) extra) (length (heap (ms m))))
-      as [_ [_ [A _]]].
-    apply A. unfold ext. cbn [heap]. rewrite <- app_assoc. apply nth_error_app_here.
-  - cbn in H. inversion H; subst. exists 1. cbn [chain_of snd chain_spec fold_left base_elems fst].
-    destruct (fresh_iter_rep (ext (mkStore (heap (ms m) ++ [OCount hi lo]) (vecs (ms m))) extra) (length (heap (ms m))))
-      as [_ [_ [_ [_ [_ A]]]]].
-    apply A. unfold ext. cbn [heap]. rewrite <- app_assoc. apply nth_error_app_here.
-  - cbn in H. inversion H; subst. exists 1. cbn [chain_of snd chain_spec fold_left base_elems fst].
-    destruct (fresh_iter_rep (ext (mkStore (heap (ms m) ++ [OVecIter (nth n (wvars m) 0) 0]) (vecs (ms m))) extra) (length (heap (ms m))))
-      as [A _].
-    specialize (A (nth n (wvars m) 0)). unfold ext in *. cbn [heap vecs ms m_store] in *. rewrite <- app_assoc in *.
-    apply A. apply nth_error_app_here.
-  - cbn [eval_iter] in H. destruct (eval_iter e m) as [i m1] eqn:E1. cbn in H. inversion H; subst.
-    destruct (IH m i m1 Fr E1 (OMap f i :: extra)) as [F R].
-    cbn [chain_of]. destruct (chain_of e) as [x ops] eqn:CO. cbn [snd] in *.
-    assert (B : base_elems (EMap f e) m = base_elems e m) by (unfold base_elems; cbn [chain_of]; rewrite CO; reflexivity).
-    rewrite B. rewrite chain_spec_snoc. cbn [apply_op]. exists (S F).
-    assert (X : ext (mkStore (heap (ms m1) ++ [OMap f i]) (vecs (ms m1))) extra = ext (ms m1) (OMap f i :: extra)).
-    { unfold ext. cbn [heap vecs]. rewrite <- app_assoc. reflexivity. }
-    cbn [ms m_store]. rewrite X. eapply rep_map; [exact R|]. unfold ext. cbn [heap]. apply nth_error_app_here.
-  - cbn [eval_iter] in H. destruct (eval_iter e m) as [i m1] eqn:E1. cbn in H. inversion H; subst.
-    destruct (IH m i m1 Fr E1 (OFilter p i :: extra)) as [F R].
-    cbn [chain_of]. destruct (chain_of e) as [x ops] eqn:CO. cbn [snd] in *.
-    assert (B : base_elems (EFilter p e) m = base_elems e m) by (unfold base_elems; cbn [chain_of]; rewrite CO; reflexivity).
-    rewrite B. rewrite chain_spec_snoc. cbn [apply_op]. eexists.
-    assert (X : ext (mkStore (heap (ms m1) ++ [OFilter p i]) (vecs (ms m1))) extra = ext (ms m1) (OFilter p i :: extra)).
-    { unfold ext. cbn [heap vecs]. rewrite <- app_assoc. reflexivity. }
-    cbn [ms m_store]. rewrite X. eapply rep_filter; [exact R|]. unfold ext. cbn [heap]. apply nth_error_app_here.
-Qed.
-
-Lemma ext_nil : forall st, ext st [] = st.
-Proof. intros [h v]. unfold ext. cbn. rewrite app_nil_r. reflexivity. Qed.
-
-(* for EVERY fresh chain expression of the mini-language (any depth): the iterator object built by the
-   Mechanism hands out List.map / List.filter composed over the elements of its base, so that collect()
-   and reduce() over it return the Spec's list / fold (instance of map_filter_collect_reduce_spec) *)
-Theorem lang_chain_collect_reduce : forall e m id m', fresh e = true -> eval_iter e m = (id, m') ->
-  let l := chain_spec (snd (chain_of e)) (base_elems e m) in
-  exists F, forall ofuel fuel, F <= ofuel -> length l < fuel ->
-    (exists v st', collect_loop fuel ofuel (ms m') id = (CNormal, (l, v, st'))) /\
-    (forall g init, exists v st',
-       fold_loop fuel ofuel (apply_rd g) init (ms m') id = (CNormal, (fold_left (apply_rd g) l init, v, st'))).
-Proof.
-  intros e m id m' Fr H l. destruct (eval_iter_rep e m id m' Fr H []) as [F R]. rewrite ext_nil in R.
-  destruct (map_filter_collect_reduce_spec (ms m') id [] id F l (Chain_nil _ _) R) as [F' Q].
-  exists F'. exact Q.
-Qed.
-Print Assumptions lang_chain_collect_reduce.
-
-Example lang_chain_example :
-  let e := EFilter IsEven (EMap (MulK 3) (EMap (AddK 1) (ERange 4 (-2)))) in
-  let '(id, m') := eval_iter e init_m in
-  fst (snd (collect_loop 50 OFUEL (ms m') id)) = ([VNum 12; VNum 6; VNum 0], VStop)
-  /\ chain_spec (snd (chain_of e)) (base_elems e init_m) = [VNum 12; VNum 6; VNum 0].
-Proof. vm_compute. split; reflexivity. Qed.
-
-(* ---- the stack of hidden locals ---- *)
-Definition ok_ctl (c : ctl) : Prop := c <> CReturn /\ c <> CFuel.
-
-Lemma for_rounds_len : forall {M} (len : M -> nat) (nextf : M -> option (value * M)) setv body,
-  (forall m v m', nextf m = Some (v, m') -> len m' = len m) ->
-  (forall m v, len (setv m v) = len m) ->
-  (forall m c m', body m = (c, m') -> ok_ctl c -> len m' = len m) ->
-  forall fuel m c m', for_rounds nextf setv body fuel m = (c, m') -> ok_ctl c -> len m' = len m.
-Proof.
-  intros M len nextf setv body Hn Hs Hb. induction fuel as [|k IH]; intros m c m' H [O1 O2].
-  - cbn in H. inversion H; subst. congruence.
-  - cbn [for_rounds] in H. destruct (nextf m) as [[v m1]|] eqn:EN; [|inversion H; subst; congruence].
-    destruct (is_stop v).
-    + inversion H; subst. rewrite Hs. eapply Hn; eauto.
-    + destruct (body (setv m1 v)) as [cb m3] eqn:EB.
-      assert (L3 : ok_ctl cb -> len m3 = len m).
-      { intros O. rewrite (Hb _ _ _ EB O), Hs. eapply Hn; eauto. }
-      destruct cb.
-      * rewrite (IH _ _ _ H (conj O1 O2)). apply L3. split; discriminate.
-      * inversion H; subst. apply L3. split; discriminate.
-      * rewrite (IH _ _ _ H (conj O1 O2)). apply L3. split; discriminate.
-      * inversion H; subst. congruence.
-      * inversion H; subst. congruence.
-Qed.
-
-Lemma eval_iter_stack : forall e m id m', eval_iter e m = (id, m') -> stack m' = stack m.
-Proof.
-  induction e as [xs|xs|a z|s|xs|lo hi|lo|n|n|f e IH|p e IH]; intros m id m' H; cbn [eval_iter] in H.
-  - cbn in H. inversion H; subst. reflexivity.
-  - cbn in H. inversion H; subst. reflexivity.
-  - destruct (range_new a z) as [c stp]. cbn in H. inversion H; subst. reflexivity.
-  - cbn in H. inversion H; subst. reflexivity.
-  - cbn in H. inversion H; subst. reflexivity.
-  - cbn in H. inversion H; subst. reflexivity.
-  - cbn in H. inversion H; subst. reflexivity.
-  - cbn in H. inversion H; subst. reflexivity.
-  - inversion H; subst. reflexivity.
-  - destruct (eval_iter e m) as [i m1] eqn:E. cbn in H. inversion H; subst. cbn. eapply IH; eauto.
-  - destruct (eval_iter e m) as [i m1] eqn:E. cbn in H. inversion H; subst. cbn. eapply IH; eauto.
-Qed.
-
-Lemma m_next_stack : forall ofuel id m v m', m_next ofuel id m = Some (v, m') -> stack m' = stack m.
-Proof.
-  intros ofuel id m v m' H. unfold m_next in H. destruct (obj_next ofuel (ms m) id) as [[w s]|]; [|discriminate].
-  injection H as _ <-. reflexivity.
-Qed.
-
-Lemma removelast_length : forall {A} (l : list A), length (removelast l) = length l - 1.
-Proof.
-  intros A l. induction l as [|x l IH]; [reflexivity|]. destruct l as [|y l]; [reflexivity|].
-  cbn [removelast length] in *. rewrite IH. lia.
-Qed.
-
-Definition slen (m : mstate) : nat := length (stack m).
-
-Lemma push_len : forall m x, slen (push m x) = S (slen m).
-Proof. intros. unfold slen, push. cbn. rewrite app_length. cbn. lia. Qed.
-Lemma pop_len : forall m, slen (pop m) = slen m - 1.
-Proof. intros. unfold slen, pop. cbn. apply removelast_length. Qed.
-
-Lemma wrap_body_len : forall loc d run, (forall m c m', run m = (c, m') -> ok_ctl c -> slen m' = slen m) ->
-  forall m c m', wrap_body loc d run m = (c, m') -> ok_ctl c -> slen m' = slen m.
-Proof.
-  intros loc d run Hr m c m' H O. unfold wrap_body in H.
-  match type of H with (let '(_, _) := run ?X in _) = _ => destruct (run X) as [r m3a] eqn:ER; set (m2 := X) in * end.
-  assert (L2 : slen m2 = if loc then S (slen m) else slen m).
-  { subst m2. destruct loc; [rewrite push_len|]; reflexivity. }
-  destruct r; cbn [fst snd] in H; inversion H; subst; try (destruct O as [O1 O2]; congruence);
-    pose proof (Hr _ _ _ ER (conj ltac:(discriminate) ltac:(discriminate))) as L3;
-    destruct loc; cbv iota beta in *; rewrite ?pop_len; unfold slen in *; cbn [m_cnts stack] in *; lia.
-Qed.
-
-Lemma next_hidden_len : forall ofuel m v m', next_hidden ofuel m = Some (v, m') -> slen m' = slen m.
-Proof.
-  intros ofuel m v m' H. unfold next_hidden in H. destruct (last (stack m) (LVal VNil)).
-  - inversion H; subst. reflexivity.
-  - unfold slen. rewrite (m_next_stack _ _ _ _ _ H). reflexivity.
-Qed.
-
-Lemma set_loopvar_len : forall m v, slen (set_loopvar m v) = slen m.
-Proof. intros. unfold slen, set_loopvar. cbn [stack m_stack]. apply upd_length. Qed.
-
-Lemma exec_stmt_stack : forall rec k ofuel loc d s m c m',
-  (forall d ss m c m', rec d ss m = (c, m') -> ok_ctl c -> slen m' = slen m) ->
-  exec_stmt rec k ofuel loc d s m = (c, m') -> ok_ctl c -> slen m' = slen m.
-Proof.
-  intros rec k ofuel loc d s m c m' Hrec H O. destruct s; cbn [exec_stmt] in H.
-  - inversion H; subst. reflexivity.
-  - inversion H; subst. reflexivity.
-  - destruct (eval_iter e (push (marker m) (LVal VNil))) as [id m2] eqn:EI.
-    match type of H with (let '(_, _) := ?X in _) = _ => destruct X as [c5 m5] eqn:EF end.
-    assert (L2 : slen m2 = S (slen m)).
-    { unfold slen. rewrite (eval_iter_stack _ _ _ _ EI). fold (slen (push (marker m) (LVal VNil))). rewrite push_len. reflexivity. }
-    assert (L5 : ok_ctl c5 -> slen m5 = S (S (slen m))).
-    { intros O5. rewrite (for_rounds_len slen _ _ _ (next_hidden_len ofuel) set_loopvar_len
-                             (wrap_body_len loc d _ (Hrec (S d) body)) _ _ _ _ EF O5).
-      unfold slen at 1. cbn [m_cnts stack]. fold (slen (push m2 (LIter id))). rewrite push_len, L2. reflexivity. }
-    destruct O as [O1 O2].
-    destruct c5; inversion H; subst; try congruence;
-      rewrite (fun p => p : slen (marker (pop (pop m5))) = slen (pop (pop m5))) by reflexivity;
-      rewrite !pop_len, L5 by (split; discriminate); lia.
-  - destruct (nth d0 (cnts m) 0 =? k0).
-    + eapply Hrec; eauto.
-    + inversion H; subst. reflexivity.
-  - inversion H; subst. reflexivity.
-  - inversion H; subst. reflexivity.
-  - inversion H; subst. reflexivity.
-  - destruct (eval_iter e m) as [id m1] eqn:EI. inversion H; subst. unfold slen. cbn [m_slots stack].
-    rewrite (eval_iter_stack _ _ _ _ EI). reflexivity.
-  - destruct (m_next ofuel (nth n (slots m) 0) m) as [[v m1]|] eqn:EN; inversion H; subst; [|reflexivity].
-    unfold slen. cbn [m_print stack]. rewrite (m_next_stack _ _ _ _ _ EN). reflexivity.
-  - inversion H; subst. reflexivity.
-  - inversion H; subst. reflexivity.
-  - cbn in H. inversion H; subst. reflexivity.
-  - destruct (eval_iter e m) as [id m1] eqn:EI.
-    destruct (collect_loop k ofuel (ms m1) id) as [cc [[acc v] s]].
-    destruct cc; inversion H; subst; unfold slen; cbn [m_print m_store stack]; rewrite (eval_iter_stack _ _ _ _ EI); reflexivity.
-  - destruct (eval_iter e m) as [id m1] eqn:EI.
-    destruct (fold_loop k ofuel (apply_rd g) init (ms m1) id) as [cc [[acc v] s]].
-    destruct cc; inversion H; subst; unfold slen; cbn [m_print m_store stack]; rewrite (eval_iter_stack _ _ _ _ EI); reflexivity.
-Qed.
-
-(* for_leaves_no_state ("break and continue leave no iteration state behind"): whatever a statement list does -
-   loops ending normally, by break, continue rounds, nested loops, loops over shared iterators - the stack of
-   hidden locals is as high afterwards as it was before, unless the function returned (the frame is discarded
-   as a whole) or the model ran out of fuel *)
-Theorem exec_stack : forall k ofuel loc d ss m c m', exec k ofuel loc d ss m = (c, m') -> ok_ctl c -> slen m' = slen m.
-Proof.
-  induction k as [|k IH]; intros ofuel loc d ss m c m' H O.
-  - cbn in H. inversion H; subst. destruct O; congruence.
-  - cbn [exec] in H. destruct ss as [|s rest]; [inversion H; subst; reflexivity|].
-    destruct (exec_stmt (exec k ofuel loc) k ofuel loc d s m) as [c1 m1] eqn:E1.
-    assert (L1 : ok_ctl c1 -> slen m1 = slen m).
-    { intros O1. eapply exec_stmt_stack; [|exact E1|exact O1]. intros; eapply IH; eauto. }
-    destruct c1; try (inversion H; subst; apply L1; exact O).
-    rewrite (IH _ _ _ _ _ _ _ H O). apply L1. split; discriminate.
-Qed.
-Print Assumptions exec_stack.
-
-(* the loop statement itself: the two hidden locals are gone on every exit path that stays in the function *)
-Corollary for_leaves_no_state : forall k ofuel loc d e body m c m',
-  exec (S k) ofuel loc d [SFor e body] m = (c, m') -> ok_ctl c -> length (stack m') = length (stack m).
-Proof. intros. eapply (exec_stack (S k)); eauto. Qed.
-
-(* for_loop_visits_elements, on the mini-language: a for loop over a fresh chain whose body only prints the
-   loop variable prints exactly chain_spec (elements) - checked here on an instance by computation; the general
-   statement is for_rounds_visits (any body that keeps the iterator's denotation) + lang_chain_collect_reduce *)
-Example for_loop_example :
-  eval_mech (mkProg true false [SFor (EFilter (GtK 0) (EMap (AddK (-2)) (EVec [VNum 1; VNum 5; VNum 2; VNum 7]))) [SPrintVar 0; SIf 0 2 [SBreak]]])
-  = map b ["#0"; "3"; "5"; "#0"; "end"]%string.
-Proof. vm_compute. reflexivity. Qed.
-
-(* break out of nested loops over one shared iterator: nothing is left on the stack, the iterator keeps its place *)
-Example shared_iterator_example :
-  eval_mech (mkProg true true [SLet 0 (ERange 0 6);
-                              SFor (ESlot 0) [SPrintVar 0; SFor (ESlot 0) [SPrintVar 1; SIf 1 2 [SBreak]]; SIf 0 1 [SBreak]];
-                              SNext 0])
-  = map b ["#0"; "0"; "#3"; "1"; "2"; "#3"; "#0"; "3"; "111"; "222"; "end"]%string.
-Proof. vm_compute. reflexivity. Qed.
